@@ -744,8 +744,12 @@ func (r *Renderer) renderDriver(home map[int]int) string {
 		var args []string
 		for pi, p := range in.Params {
 			an := fmt.Sprintf("zzA%d", pi)
-			f.p("\tzzTk%d := %s.Tok()\n\t_ = zzTk%d\n", pi, tr, pi)
-			f.p("\tvar %s %s = %s\n", an, f.ty(p.T), f.mk(p.T, fmt.Sprintf("zzTk%d", pi), false, 0))
+			if run.Zero {
+				f.p("\tvar %s %s\n", an, f.ty(p.T))
+			} else {
+				f.p("\tzzTk%d := %s.Tok()\n\t_ = zzTk%d\n", pi, tr, pi)
+				f.p("\tvar %s %s = %s\n", an, f.ty(p.T), f.mk(p.T, fmt.Sprintf("zzTk%d", pi), false, 0))
+			}
 			if in.Variadic && pi == len(in.Params)-1 {
 				args = append(args, an+"...")
 			} else {
